@@ -337,6 +337,29 @@ def stmtAtB : List Nat → Block → Option Stmt
 end
 def stmtAt (path : List Nat) (b : Block) : Option Stmt := stmtAtB path b
 
+/- variables a statement reads -/
+mutual
+def readsS : Stmt → List Var
+  | .setup _ fs => fs.map (·.2)
+  | .ghost _ fs => fs.map (·.2)
+  | .launch _ lv => lv
+  | .await _ => []
+  | .pure _ _ args => args
+  | .call _ _ => []
+  | .ifS c t e => c :: (readsB t ++ readsB e)
+  | .forS lb ub st _ b => lb :: ub :: st :: readsB b
+def readsB : Block → List Var
+  | .nil => []
+  | .cons s r => readsS s ++ readsB r
+end
+
+/-- side condition of the dead-code step: nothing in the resulting program reads a value the erased
+statement defined ("trivially dead": no uses) -/
+def dceSide (path : List Nat) (b b' : Block) : Bool :=
+  match stmtAt path b with
+  | some s => (defsS s).all fun x => !(readsB b').contains x
+  | none => false
+
 inductive Rule where
   | simplify | merge | elide | dce | hoist
   | pull (j : Nat)
